@@ -241,7 +241,7 @@ def main():
         "setup_cmd": "sh /verif/setup.sh",
         "hooks": {
             "guard": "SSEPY_VERIF",
-            "enable": "no source hooks exist: every interposition (entropy, asyncio.sleep in the services manager, server URI, "
+            "enable": "no source hooks exist: every interposition (entropy, asyncio.sleep and wait_for timeouts in the server modules, server URI, "
                       "HOME, file-system fault injection) is installed from /verif into the check process or its children",
             "baseline_off_cmd": "cd /repo && /venv/bin/python -m pytest -ra -q -p no:cacheprovider --timeout=900 "
                                 "--continue-on-collection-errors",
